@@ -27,7 +27,7 @@ RULE = ("one run = one simulated world (issuer clock, validator clock with seede
         "leeway, now) tuples; non-trivial = outside the listed don't-care zones")
 ASSUMPTIONS = [
     "the oracle is models.claims_model, transcribed from the statement; joserfc must raise one of the violated classes (precedence between several violated rules is unspecified) and must not raise when none is violated",
-    "don't-care zones (skipped, counted): exp == now-leeway (left open by the statement); the sub-second band created by now=int(time.time()) (both readings of 'now' accepted); bool / NaN / infinity as NumericDate; True vs 1 in value comparison; empty or falsy requested values / audiences; an empty request object",
+    "don't-care zones (skipped, counted): exp == now-leeway (left open by the statement); the sub-second band created by now=int(time.time()) (both readings of 'now' accepted); True vs 1 in value comparison; empty or falsy requested values / audiences; an empty request object",
     "the clock seam covers time.time, time.time_ns and datetime.now/utcnow/today; its effectiveness is probed at the start of every run, an ineffective seam degrades to explicit now only",
 ]
 COMPONENTS = {
@@ -157,7 +157,7 @@ def run(rng: Rng, tier: str, index: int) -> RunResult:
         if g.chance(0.85):
             claims["exp"] = int(now_i) + g.pick([1, 30, 60, 3600, 86400, 86400 * 30])
         if g.chance(0.12):
-            claims[g.pick(["exp", "nbf", "iat"])] = g.pick(["soon", None, [1], {"t": 1}, "1700000000", True, float("nan")])
+            claims[g.pick(["exp", "nbf", "iat"])] = g.pick(["soon", None, [1], {"t": 1}, "1700000000", True, False, float("nan"), float("inf"), float("-inf")])
         if g.chance(0.6):
             claims["aud"] = g.pick(["a", "b", ["a", "b"], ["c"], [], "api://x", ["api://x", "a"], ""])
         for name in g.sample(["iss", "sub", "jti", "role", "n", "flag", "grp", "blank"], g.randrange(0, 5)):
@@ -177,7 +177,7 @@ def run(rng: Rng, tier: str, index: int) -> RunResult:
                 base = None
                 choice = g.pick(["exp", "nbf", "iat"])
                 v = claims.get(choice)
-                if isinstance(v, (int, float)) and not isinstance(v, bool) and v == v:
+                if isinstance(v, (int, float)) and not isinstance(v, bool) and v == v and abs(v) != float("inf"):
                     base = (v + leeway) if choice == "exp" else (v - leeway)
                     target = base + g.pick([-1, 0, 1, -1, 0, 1, -0.5, 0.5, 0.999, -0.001, 2, -2])
             elif mode < 0.7:
